@@ -224,10 +224,16 @@ func init() {
 			argv = []string{}
 		case "notfound":
 			argv = []string{str(a["name"])}
+			if b, _ := a["with_dir"].(bool); b {
+				runDir = base
+			}
 		case "notexec":
 			p := filepath.Join(base, "plain.txt")
 			os.WriteFile(p, []byte("#!/bin/sh\nexit 0\n"), 0o644)
 			argv = []string{p}
+			if b, _ := a["with_dir"].(bool); b {
+				runDir = base
+			}
 		case "isdir":
 			argv = []string{base}
 		default: // badrundir
@@ -236,7 +242,14 @@ func init() {
 				os.WriteFile(runDir, []byte("x"), 0o644)
 			}
 		}
+		wd0, _ := os.Getwd()
 		res, err := intoto.RunCommand(argv, runDir)
+		if wd1, _ := os.Getwd(); wd1 != wd0 {
+			// the working directory of the COMMAND is runDir; that of the calling process stays
+			// (seeded change c10-rundir-chdir-leaks-on-start-failure)
+			os.Chdir(wd0)
+			return "process-working-directory-changed"
+		}
 		if (err != nil) != (res == nil) {
 			return "error-and-result-disagree"
 		}
@@ -334,6 +347,7 @@ func runC14(r *Runner, tier string, rng *Rng) {
 	for _, nm := range []string{"definitely-not-a-command-zz", "./nope", "/nonexistent/dir/tool", "no such", ""} {
 		starts = append(starts, sc{"notfound", map[string]any{"name": nm}})
 	}
+	starts = append(starts, sc{"notfound", map[string]any{"name": "definitely-not-a-command-zz", "with_dir": true}}, sc{"notexec", map[string]any{"with_dir": true}})
 	starts = append(starts, sc{"empty", nil}, sc{"notexec", nil}, sc{"isdir", nil},
 		sc{"badrundir", map[string]any{"name": "missing"}}, sc{"badrundir", map[string]any{"name": "afile", "dir_is_file": true}},
 		sc{"startable", nil}, sc{"startable", map[string]any{"explicit_path": true}}, sc{"startable", map[string]any{"with_dir": true}},
